@@ -207,4 +207,20 @@ def genErrD {m : ℕ} (U : Matrix (Fin m) (Fin m) GQ) (P : Prec) (c : Cfg) (memb
         (g.w, memberGenθ U c 0 g.w g.terms)) ++
   mix ((keptGθ P c members).map fun g => (g.w, genErrDM U c (pThresholdG P c members) g.w g.terms))
 
+/-! ### `check_heralds_detectors`: the early exit of `probs_svd`
+
+`if heralds and detectors:` — for every herald `(k, v)`, `detector = detectors[k]`; `if detector:` its
+`max_detections` (None = unbounded) must not be below `v`; otherwise `probs_svd` returns
+`{'results': BSDistribution(), 'physical_perf': 1, 'logical_perf': 0}` without simulating.  `maxes[k]` is
+`detectors[k].max_detections` (`none` for no detector / a PNR detector). -/
+
+def checkHeraldsDetectors (h : List (ℕ × ℕ)) (maxes : List (Option ℕ)) : Bool :=
+  h.isEmpty || maxes.isEmpty || h.all fun p => match maxes.getD p.1 none with
+    | none => true
+    | some mx => !decide (mx < p.2)
+
+/-- `Simulator.probs_svd(svd, detectors)` with its first statement -/
+def probsSvdGuarded (eng : Fock → D) (c : Cfg) (ds : List Det) (maxes : List (Option ℕ)) (members : List Member) : Out :=
+  if checkHeraldsDetectors c.heralds maxes then probsSvdDet eng c ds members else ⟨[], 1, 0⟩
+
 end PM.C04
